@@ -36,7 +36,8 @@ Vals(ty) ==
     [] ty.t = "f64" -> <<[k |-> "f64", v |-> "0.5"], [k |-> "f64", v |-> "-2.25"], [k |-> "f64", v |-> "1e19"], [k |-> "f64", v |-> "-0.0"]>>
     [] ty.t = "f32" -> <<[k |-> "f32", v |-> "0.5"]>>
     [] ty.t = "char" -> <<[k |-> "char", v |-> "c1"], [k |-> "char", v |-> "c2"]>>
-    [] ty.t = "str" -> <<[k |-> "str", v |-> "s1"], [k |-> "str", v |-> "s0"]>>
+    \* (s2: 12 characters in 24 bytes -- strings are stored inline up to 21 BYTES)
+    [] ty.t = "str" -> <<[k |-> "str", v |-> "s1"], [k |-> "str", v |-> "s0"], [k |-> "str", v |-> "s2"]>>
     [] ty.t = "unit" -> <<[k |-> "unit"]>>
     [] ty.t = "opt" -> <<[k |-> "some", v |-> First(ty.a)], [k |-> "none"]>>
     [] ty.t = "seq" -> <<[k |-> "seq", v |-> Vals(ty.a)], [k |-> "seq", v |-> <<>>]>>
